@@ -35,6 +35,8 @@ type memFS struct {
 	readSizes     []int         // cyclic schedule of read sizes (0 = whatever fits)
 	readN         int
 	eofWithData   bool         // readers return their last bytes together with io.EOF
+	walkHookAt    int          // call walkHook when the walk reaches entry k (1-based; 0 = never)
+	walkHook      func()       // e.g. cancels the context of the Send call only
 	openGate      func(string) // called in Open (may block)
 }
 
@@ -85,6 +87,11 @@ func newMemFS(ents []TreeEntry, log *evLog) *memFS {
 				st.Size = int64(len(data))
 				if e.OpenErr {
 					data, st.Size = nil, 0
+				}
+				if e.HasASize {
+					// the size the FS reports is not the length its reader delivers (a file that grew after it was listed,
+					// procfs-style entries of size 0)
+					st.Size = int64(e.ASize)
 				}
 			case "dir":
 				// a synthetic source may announce directories with a size (a caller-built FS often copies os.FileInfo.Size: 4096)
@@ -143,6 +150,9 @@ func (fs *memFS) Walk(ctx context.Context, target string, fn gofs.WalkDirFunc) e
 		case <-ctx.Done():
 			return ctx.Err()
 		default:
+		}
+		if fs.walkHookAt != 0 && k+1 == fs.walkHookAt && fs.walkHook != nil {
+			fs.walkHook()
 		}
 		var walkErr error
 		if fs.walkFailAt != 0 && k+1 >= fs.walkFailAt {
